@@ -27,7 +27,7 @@ import (
 
 const c13AllocBase = 16 << 20 // bytes a single call may allocate on top of 64 x input length
 
-var c13States = []string{"plaintext", "ake-sent-commit", "ake-sent-dhkey", "ake-sent-revealsig", "encrypted", "smp-expect2", "smp-waiting-secret", "finished", "no-keys", "otr-disabled"}
+var c13States = []string{"plaintext", "ake-sent-commit", "ake-sent-dhkey", "ake-sent-revealsig", "encrypted", "smp-expect2", "smp-waiting-secret", "finished", "no-keys", "otr-disabled", "key-with-long-q"}
 
 func init() {
 	Register(&PropDef{
@@ -131,6 +131,10 @@ func c13Config(rc *RunCtx) {
 			rc.Parties[0].NoKeys = true
 		case "otr-disabled":
 			rc.Parties[0].Pol = extra
+		case "key-with-long-q":
+			// a genuine DSA key with a 2048 bit p and a 256 bit q (what current tools make): the key
+			// parsers take it and it is offered for both versions
+			rc.Parties[0].KeyIdx = 6
 		}
 	}
 }
@@ -444,7 +448,7 @@ func c13Hostile(rc *RunCtx) *Violation {
 		}
 	}
 	// the conversation must remain usable: a fresh exchange and a message in each direction
-	if state != "no-keys" && state != "otr-disabled" {
+	if state != "no-keys" && state != "otr-disabled" && state != "key-with-long-q" { // (a key with a long q cannot sign for OTR: like having no key)
 		if pv := c13Probe(rc, w, "hostile input in state "+state); pv != nil {
 			return pv
 		}
